@@ -65,6 +65,22 @@ func scenarios(c *vlib.Ctx) []*slib.Scn {
 	for _, v := range []string{"run", "start", "signal"} {
 		add(modules.C15Params{Limit: 2, Tasks: []string{"h-" + v + "-ok", "m-run-ok", "m-start-ok", "l-signal-ok"}}, bound)
 	}
+	// a function that returns context.Canceled (plain or wrapped): the blocking variants hand it to their caller like any other error
+	for _, o := range []string{"canceled", "wrapcanceled"} {
+		for _, pr := range []string{"h", "m", "l"} {
+			add(modules.C15Params{Limit: 2, Tasks: []string{pr + "-run-" + o, "m-run-ok"}}, vlib.Pick(c, 1, 2))
+		}
+	}
+	// clearance queues that hold one or two waiting requests only: further submitters find the queue full and wait for room
+	for _, ts := range [][]string{
+		{"m-run-ok", "m-run-ok", "m-run-ok", "m-run-ok", "m-run-ok"},
+		{"m-run-ok", "m-start-ok", "m-signal-ok", "m-run-ok", "m-start-ok"},
+		{"l-run-ok", "l-run-ok", "l-start-ok", "l-signal-ok", "l-run-ok"},
+		{"m-run-ok", "l-run-ok", "m-run-ok", "l-run-ok", "m-run-ok", "l-run-ok"},
+	} {
+		add(modules.C15Params{Limit: 2, Tasks: ts, QueueCap: 1}, vlib.Pick(c, 1, 2))
+		add(modules.C15Params{Limit: 2, Tasks: ts, QueueCap: 2}, vlib.Pick(c, 1, 2))
+	}
 	// the module is stopped while microtasks are running: the stop completes as soon as they finished
 	for _, ts := range [][]string{{"m-run-ok"}, {"m-signal-ok"}, {"l-start-ok"}, {"h-run-ok"}, {"m-run-ok", "l-run-ok"}, {"m-start-ok", "m-signal-ok", "l-run-ok"}} {
 		add(modules.C15Params{Limit: 2, Tasks: ts, StopDuring: true}, bound)
@@ -82,7 +98,7 @@ func scenarios(c *vlib.Ctx) []*slib.Scn {
 
 func main() {
 	vlib.Main("C15", "model_checking", func(c *vlib.Ctx) {
-		c.Rule("stateless exploration of all interleavings within a deviation bound of the real modules package (source-instrumented): limit in {2,3}, limit+1.. microtasks submitted from as many threads, every multiset of {medium, low} x {Run, Start, Signal} variants, error/panic outcomes, optional high-priority task; both default schedulers; " +
+		c.Rule("stateless exploration of all interleavings within a deviation bound of the real modules package (source-instrumented): limit in {2,3}, limit+1.. microtasks submitted from as many threads, every multiset of {medium, low} x {Run, Start, Signal} variants, error/panic/context.Canceled outcomes, optional high-priority task, clearance queues shrunk to 1-2 entries (full-queue paths), stop during the run, maximum-delay expiry; both default schedulers; " +
 			"distinct_nontrivial = distinct observation traces (begin/end order of the microtask bodies) per scenario")
 		c.Assume("sequential consistency; data-race freedom outside the instrumented synchronisation operations; the virtual clock is frozen unless no thread can run, so 'no maximum delay has expired' holds whenever the clock reads 0")
 		slib.Run(c, scenarios(c), slib.Opts{})
